@@ -1407,6 +1407,14 @@ class OptionStore:
                 # to keep the old options. If they are not valid keep the new
                 # defaults but warn.
                 self.options[key] = value
+                # The new object takes the place of the old one in the
+                # yielding relations: it yields to the same parent, and
+                # subproject options that yielded to the old object follow.
+                value.parent = oldval.parent
+                value.yielding = oldval.yielding
+                for other in self.options.values():
+                    if other.parent is oldval:
+                        other.parent = value
                 try:
                     value.set_value(oldval.value)
                 except MesonException:
